@@ -64,15 +64,18 @@ def catches(handler_classes, exc):
 
 
 class RaiseSite(object):
-    __slots__ = ("exc", "origin", "guards", "chain", "lineno", "path")
+    __slots__ = ("exc", "origin", "guards", "chain", "lineno", "path", "call", "tgt", "evkind")
 
-    def __init__(self, exc, origin, guards=(), chain=(), lineno=0, path=""):
+    def __init__(self, exc, origin, guards=(), chain=(), lineno=0, path="", call=None, tgt=None, evkind=None):
         self.exc = exc
         self.origin = origin
         self.guards = tuple(guards)
         self.chain = tuple(chain)
         self.lineno = lineno
         self.path = path
+        self.call = call        # AST (in the current function) of the call / attribute / container the first chain element stands for
+        self.tgt = tgt          # FuncInfo directly called there
+        self.evkind = evkind    # event kind: call, store_attr, load_prop, contains, ...
 
     def key(self):
         return (self.exc, self.origin, self.chain)
@@ -619,7 +622,7 @@ class Raises(object):
                         tgts = self.k.resolve_call(a2, f, self.k.envs.get(f.qualname, {}), g0.dominating_conditions(node))
             for tgt in tgts:
                 if isinstance(tgt, FuncInfo):
-                    callees.append((tgt, self.s.arg_exprs(a, tgt, f), unparse(a.func)))
+                    callees.append((tgt, self.s.arg_exprs(a, tgt, f), self.label(f, node, a.func)))
                 elif isinstance(tgt, tuple) and self.lib and tgt[0] in ("ext", "builtin"):
                     name = tgt[1] if tgt[0] == "ext" else tgt[1]
                     name = unparse(a.func) if tgt[0] == "ext" else name
@@ -637,10 +640,10 @@ class Raises(object):
                 args = {0: a.value}
                 if ev.get("value") is not None:
                     args[1] = ev["value"]
-                callees.append((s, args, "%s.%s =" % (unparse(a.value), a.attr)))
+                callees.append((s, args, self.label(f, node, a, " =")))
         elif k == "load_prop":
             for gt in self.k.getter_targets(a, f):
-                callees.append((gt, {0: a.value}, "%s.%s" % (unparse(a.value), a.attr)))
+                callees.append((gt, {0: a.value}, self.label(f, node, a)))
         elif k in ("contains", "eq", "iter", "load_sub", "store_sub", "del_sub"):
             recv, name, args = {"contains": (ev.get("container"), "__contains__", [ev.get("item")]),
                                 "eq": (ev.get("left"), "__eq__", [ev.get("right")]),
@@ -657,7 +660,7 @@ class Raises(object):
                         for i, x in enumerate(args):
                             if x is not None:
                                 amap[i + 1] = x
-                        callees.append((m, amap, "%s %s" % (unparse(recv), name)))
+                        callees.append((m, amap, self.label(f, node, recv, " " + name)))
         facts = None
         own = None
         for tgt, args, ctext in callees:
@@ -667,6 +670,7 @@ class Raises(object):
                 lifted = self.lift(site, tgt, args, f, node, ctext)
                 if lifted is None:
                     continue
+                lifted.call, lifted.tgt, lifted.evkind = a, tgt, k
                 if with_discharge:
                     if facts is None:
                         facts = self.facts_at(f, node)
@@ -695,10 +699,48 @@ class Raises(object):
             for tgt in self.s.targets(a, f):
                 if isinstance(tgt, FuncInfo) and tgt.is_generator:
                     for site in self.summary(tgt):
-                        lifted = self.lift(site, tgt, self.s.arg_exprs(a, tgt, f), f, node, unparse(a.func))
+                        lifted = self.lift(site, tgt, self.s.arg_exprs(a, tgt, f), f, node, self.label(f, node, a.func))
                         if lifted is not None:
+                            lifted.call, lifted.tgt, lifted.evkind = a, tgt, k
                             out.append(lifted)
         return out
+
+    def label(self, f, node, expr, tail=""):
+        """position and name independent text of the receiver chain `expr` in f: the first parameter is written `self`, a local
+        variable is replaced by the repository classes it may hold ({Section|Property}); findings and contracts are keyed by it,
+        so renaming a local neither hides nor resurrects them."""
+        from .astutil import attr_chain
+        parts = attr_chain(expr)
+        if parts is None:
+            if isinstance(expr, ast.Attribute):
+                return "%s.%s%s" % (self.label(f, node, expr.value), expr.attr, tail)
+            if isinstance(expr, ast.Call):
+                return "%s()%s" % (self.label(f, node, expr.func), tail)
+            if isinstance(expr, ast.Subscript):
+                return "%s[]%s" % (self.label(f, node, expr.value), tail)
+            return unparse(expr) + tail
+        head = parts[0]
+        if f.params and head == f.params[0] and f.has_self:
+            head = "self"
+        elif head in f.params or head in f.kwonly:
+            pass
+        elif head in self.s.local_names(f):
+            try:
+                ks = self._kinds_of_text(head, f, node) or set()
+            except Exception:
+                ks = set()
+            names = sorted(set(self._kind_label(k) for k in ks) - set(["", None]))
+            head = "{%s}" % "|".join(names) if names else "{local}"
+        return ".".join([head] + parts[1:]) + tail
+
+    def _kind_label(self, k):
+        if k in ("None", "?", "UNKNOWN"):
+            return ""
+        if k.startswith("SmartList["):
+            return "SmartList"
+        if k.startswith(("class:", "func:", "module:", "builtin:", "ext:", "fmt:")):
+            return k.split(":", 1)[1]
+        return k[4:] if k.startswith("Base") else k
 
     def _handler_classes_of(self, f, node):
         """exception classes of the except clause the node belongs to (for bare raise)."""
